@@ -856,6 +856,27 @@ fn mode_teosd(bin: &str, meta_path: &str, cases_path: &str, workdir: &str) {
         let args = cli_args(DAEMON, &cli, &meta, &dir);
         t.cases += 1;
         let accept = exp["accept"].as_bool().unwrap();
+        // Where an accepted configuration makes the daemon look for bitcoind.  The observation needs a listener on
+        // every address the name can stand for (a port in the ephemeral range - signet's default is - may be taken
+        // by somebody's outgoing connection for a moment: one more attempt to bind it now, else the case is counted
+        // as unobservable, never as a disagreement).
+        let mut observable = true;
+        if accept {
+            let host = settings["btc_rpc_connect"].as_str().unwrap();
+            let ips: Vec<IpAddr> = if host == "localhost" {
+                vec!["127.0.0.1".parse().unwrap(), "::1".parse().unwrap()]
+            } else {
+                vec![host.parse().expect("cases for the binary use IP literals or localhost")]
+            };
+            for ip in ips {
+                let a = SocketAddr::new(ip, exp["final_port"].as_u64().unwrap() as u16);
+                if !bound.contains(&a) && listen(a, tx.clone(), true) {
+                    bound.insert(a);
+                    unbound.retain(|u| *u != a.to_string());
+                }
+                observable &= bound.contains(&a);
+            }
+        }
         let r1 = run_bin(bin, &dir, &args, &rx, &suffix, &mut foreign_seen);
         runs += 1;
         let mut bad: Vec<String> = Vec::new();
@@ -873,7 +894,9 @@ fn mode_teosd(bin: &str, meta_path: &str, cases_path: &str, workdir: &str) {
                              "connections": r1.conns.iter().map(|c| json!({"ip": c.ip.to_string(), "port": c.port,
                                               "authorization": c.authorization})).collect::<Vec<_>>(),
                              "output_tail": r1.out.lines().rev().take(6).collect::<Vec<_>>()});
-        if r1.hung {
+        // (when somebody else's server sits where the daemon has to look, what it does after connecting is not ours
+        // to judge)
+        if r1.hung && observable {
             bad.push("bin:hang".into());
         }
         if !accept {
@@ -899,7 +922,6 @@ fn mode_teosd(bin: &str, meta_path: &str, cases_path: &str, workdir: &str) {
                 vec![host.parse().expect("cases for the binary use IP literals or localhost")]
             };
             let want_port = exp["final_port"].as_u64().unwrap() as u16;
-            let observable = want_ips.iter().any(|ip| bound.contains(&SocketAddr::new(*ip, want_port)));
             if r1.conns.is_empty() {
                 if observable {
                     t.comparisons += 1;
@@ -960,7 +982,7 @@ fn mode_teosd(bin: &str, meta_path: &str, cases_path: &str, workdir: &str) {
                 }
             }
             // second start on the same data directory: a second tower key appears iff overwrite_key is in effect
-            if made.len() == 1 && !r1.hung {
+            if made.len() == 1 && !r1.hung && observable {
                 let r2 = run_bin(bin, &dir, &args, &rx, &suffix, &mut foreign_seen);
                 runs += 1;
                 let db = dir.join(&made[0]).join("teos_db.sql3");
@@ -1053,7 +1075,6 @@ fn mode_toolbin(bin: &str, meta_path: &str, cases_path: &str, workdir: &str) {
         }
         let args = cli_args("teos-cli", &cli, &meta, &dir);
         t.cases += 1;
-        let r = run_bin(bin, &dir, &args, &rx, "", &mut ignored);
         let host = settings["rpc_bind"].as_str().unwrap();
         let want_ips: Vec<IpAddr> = if host == "localhost" {
             vec!["127.0.0.1".parse().unwrap(), "::1".parse().unwrap()]
@@ -1061,9 +1082,18 @@ fn mode_toolbin(bin: &str, meta_path: &str, cases_path: &str, workdir: &str) {
             vec![host.parse().expect("cases for the binary use IP literals or localhost")]
         };
         let want_port = settings["rpc_port"].as_u64().unwrap() as u16;
-        let observable = want_ips.iter().any(|ip| bound.contains(&SocketAddr::new(*ip, want_port)));
+        let mut observable = true;
+        for ip in &want_ips {
+            let a = SocketAddr::new(*ip, want_port);
+            if !bound.contains(&a) && listen(a, tx.clone(), false) {
+                bound.insert(a);
+                unbound.retain(|u| *u != a.to_string());
+            }
+            observable &= bound.contains(&a);
+        }
+        let r = run_bin(bin, &dir, &args, &rx, "", &mut ignored);
         let mut bad: Vec<String> = Vec::new();
-        if r.hung {
+        if r.hung && observable {
             bad.push("toolbin:hang".into());
         }
         if !observable {
